@@ -25,7 +25,7 @@ def main():
             hit = None
             for mode in ('deletion', 'insertion'):
                 try:
-                    failed, panicked, out = driver.replay_native('server', 'server', ['c09_native.go'], 'VerifHarness_C09_Native', {'str:mode': mode}, timeout=1500)
+                    failed, panicked, out = driver.replay_native('server', 'server', ['c09_native.go', 'deploy_native.go'], 'VerifHarness_C09_Native', {'str:mode': mode}, timeout=1500)
                 except Exception as x:  # noqa
                     run.inconclusive.append('native replay failed to run: %r' % (x,))
                     continue
